@@ -15,7 +15,7 @@ RULE = (
     "fresh verdict under the provider's values at that moment (model) and the provider's mapping must be unchanged afterwards. "
     "non-trivial = distinct history with a provider and >=2 calls"
 )
-RULE += " Also: parameter-less functions and Optional parameters left None; zero-valued provider sizes; providers whose method lives on the instance, unhashable providers, a mapping handed over instead of a provider; a decoration that must succeed and raises."
+RULE += " Also: parameter-less functions and Optional parameters left None; zero-valued provider sizes; providers whose method lives on the instance, unhashable providers, a mapping handed over instead of a provider; a decoration that must succeed and raises. Class providers (classmethod), a long-lived mapping object, \"self\" on a parameter-less function (a refusal that is missing is a violation)."
 SHAPES = ["n k", "a k", "k", "k=3", "a+k", "k/2 a", "n*k", "... k", "a b", "n=k+1", "a n=k*2", "n=k+1"]  # (named expressions whose own name the provider may bind)
 
 
